@@ -32,6 +32,9 @@ Accept(e) ==
          /\ e.len = e.len_noval
          /\ (e.len >= 2 => \A i \in 2..e.len : IsCont(e.b[i]))               \* trailing bytes are continuation bytes
          /\ (e.len >= 1 => e.b[1] # 0)
+         \* a length of the UTF-8 table: the one the first byte announces (a stray continuation byte passes as one unit,
+         \* as in the length counter of C06; 0xFE and 0xFF announce nothing and are never accepted)
+         /\ (e.len >= 1 => e.len = (IF IsCont(e.b[1]) THEN 1 ELSE LeadLen(e.b[1])))
          /\ (e.num >= 1 /\ e.b[1] = 0 => e.len = 0)
     [] e.f = "length" ->
          LET k == Len(e.decs) IN
